@@ -250,11 +250,107 @@ def tunnel_events(ctx, rng):
     return ev
 
 
+class HopProxyPeer(ProxyPeer):
+    """CONNECT proxy whose tunnelled origin redirects a.test to b.test and accepts b.test"""
+
+    def on_bytes(self, data):
+        self.buf += data
+        if b"\r\n\r\n" not in self.buf:
+            return
+        req = bytes(self.buf)
+        self.buf = bytearray()
+        if self.stage == "connect":
+            self.connect_req = req
+            self.stage = "tunnel"
+            self.sock.feed(b"HTTP/1.1 200 OK\r\n\r\n")
+        else:
+            self.ws_req = req
+            origin_reply(self.sock, req, b"a.test" in self.connect_req.split(b"\r\n")[0])
+
+
+def origin_reply(sock, req, is_a):
+    if is_a:
+        sock.feed(b"HTTP/1.1 302 Found\r\nLocation: ws://b.test/moved\r\n\r\n")
+    else:
+        key = [l.split(b":", 1)[1].strip() for l in req.split(b"\r\n") if l.lower().startswith(b"sec-websocket-key:")]
+        sock.feed(build_head(dict(OKHEAD), key[0] if key else b"", None))
+
+
+class OriginPeer(Peer):
+    def __init__(self, is_a):
+        self.is_a = is_a
+        self.buf = bytearray()
+
+    def on_bytes(self, data):
+        self.buf += data
+        if b"\r\n\r\n" in self.buf:
+            req = bytes(self.buf)
+            self.buf = bytearray()
+            origin_reply(self.sock, req, self.is_a)
+
+
+def redirect_events(ctx, rng):
+    """the proxy decision is made per target: a redirect from a proxied host to an exempt one (and the
+    reverse) must be dialled according to the new host"""
+    import websocket
+    ev = []
+    A = {"kind": "name", "labels": ["a", "test"]}
+    Bh = {"kind": "name", "labels": ["b", "test"]}
+    for exempt in ("a", "b"):
+        for entry_kind in ("host", "dot"):
+            for via in ("option", "env"):
+                for np_src in ("option", "no_proxy", "NO_PROXY"):
+                    ex_host = A if exempt == "a" else Bh
+                    entry = {"kind": "host", "labels": ex_host["labels"]} if entry_kind == "host" else {"kind": "dot", "labels": ex_host["labels"]}
+                    resolved = []
+
+                    def factory(world, sock, address):
+                        host = [e["host"] for e in world.log if e["ev"] == "resolve"][-1]
+                        if host == "proxy.test":
+                            return HopProxyPeer(world, 200)
+                        return OriginPeer(host == "a.test")
+                    w = World(resolver={"*": ["10.8.8.8"]}, peer_factory=factory)
+                    kw, env = {}, {}
+                    if via == "option":
+                        kw = {"http_proxy_host": "proxy.test", "http_proxy_port": 3128}
+                    else:
+                        env["http_proxy"] = "http://proxy.test:3128"
+                    if np_src == "option":
+                        kw["http_no_proxy"] = [entry_text(entry)]
+                    else:
+                        env[np_src] = entry_text(entry)
+                    exc = None
+                    with clean_env(**env), w:
+                        ws = websocket.WebSocket()
+                        ws.settimeout(2)
+                        try:
+                            ws.connect("ws://a.test/start", **kw)
+                        except Exception as e:
+                            exc = e
+                    res = [e for e in w.log if e["ev"] == "resolve"]
+                    for hop, host in ((0, A), (1, Bh)):
+                        if hop >= len(res):
+                            got = {"kind": "none", "host": "", "port": 0}
+                        elif res[hop]["host"] == "proxy.test":
+                            got = {"kind": "proxy", "host": "proxy.test", "port": res[hop]["port"]}
+                        else:
+                            got = {"kind": "direct", "host": "", "port": 0}
+                        lst = [entry]
+                        ev.append({"ev": "decision",
+                                   "cfg": {"secure": False, "host": host, "optHost": "proxy.test" if via == "option" else "", "optPort": 3128 if via == "option" else 0,
+                                           "noProxyOpt": lst if np_src == "option" else [], "noProxyEnvLower": lst if np_src == "no_proxy" else [],
+                                           "noProxyEnvUpper": lst if np_src == "NO_PROXY" else [],
+                                           "envLower": "proxy.test" if via == "env" else "", "envLowerPort": 3128, "envUpper": "", "envUpperPort": 0},
+                                   "got": got, "env": env, "hop": hop, "exc": type(exc).__name__ if exc else ""})
+    return ev
+
+
 def main(ctx):
     rng = random.Random(ctx.seed * 17 + 19)
     c18.run_target_mc(ctx, emit=False, tag="c19_targetmc")
     total = 0
-    for tag, fn in (("exemptions", exempt_events), ("decisions", decision_events), ("tunnels", tunnel_events)):
+    for tag, fn in (("exemptions", exempt_events), ("decisions", decision_events), ("tunnels", tunnel_events),
+                    ("redirect_hops", redirect_events)):
         ev = fn(ctx, rng)
         total += len(ev)
         for e, faults in c18.judge_batch(ctx, "C19", ev, tag):
@@ -262,7 +358,7 @@ def main(ctx):
             if tag == "exemptions":
                 what = "host %s with no_proxy %s (%s): %s, library answered %s" % (
                     host_text(e["host"]), [entry_text(x) for x in e["list"]], e["source"], faults, e["got"])
-            elif tag == "decisions":
+            elif tag in ("decisions", "redirect_hops"):
                 what = "decision for cfg %s env %s: %s, got %s" % (json.dumps(e["cfg"]), e["env"], faults, e["got"])
             else:
                 what = "tunnel reply=%s auth=%r origin=%s:%s via %s: %s; CONNECT=%r creds=%r exc=%s" % (
